@@ -64,6 +64,13 @@ def _ctx_isinstance(x, classes):
         txt = repr(x)
         if "ctx" in txt:
             return True
+    # the statement state is a plain dict: never an instance of a class of the package
+    if is_sym(x) and x == STATE:
+        from ..engine.interp import ClassVal
+        if all(isinstance(c, ClassVal) for c in classes):
+            return False
+        if any(getattr(c, "name", "") == "dict" for c in classes):
+            return True
     return None
 
 
